@@ -420,6 +420,14 @@ pub fn check_case(c: &PackCase, l: &mut Local) -> Result<(), String> {
                     return Err("a swap accepted a tick array that belongs to another pool".into());
                 }
                 l.count("foreign_array_rejected");
+                // ... and as an extra (supplemental) account next to the complete own supply
+                let own = hh.w.swap_arrays(hh.pool, c.a_to_b);
+                let foreign = tick_array_pda(&hh.w.pools[ctx2.pool].key, foreign_start);
+                let o = run_swap(&hh, user, &sp, own, &[foreign], true);
+                if o.ok {
+                    return Err("a swap accepted a tick array that belongs to another pool as a supplemental account".into());
+                }
+                l.count(if own.iter().all(|k| *k < foreign) { "foreign_supplemental_array_rejected/sorted_after_own" } else { "foreign_supplemental_array_rejected" });
             }
         }
     }
